@@ -59,6 +59,12 @@ class P(framework.Prop):
             out.append("conv json " + wire.val(d))
             out.append("conv var " + wire.val(d))
             out.append("conv str " + wire.s(gen.rand_string(rng, 6)))
+        # neighbours that are equal under the library's tolerant number equality but are different values: every element keeps its own value
+        near = [[0.3, 0.30000000000000004], [2**53, 2**53 + 1], [1.0, 1.0000000000000002], [1, 1.0], [1.0, 1], [-0.0, 0], [0, -0.0, 0.0], [2**63, 2**63 + 1, 2**63 + 2],
+                [1e300, 1.0000000000000002e300], [5e-324, 0.0], ["a", "a"], [[1], [1.0]], [[0.3], [0.30000000000000004]], [None, None, 0], [True, 1], [{"a": 1}, {"a": 1.0}]]
+        for v in near + [[x] for x in near] + [{"a": x, "b": [x, x]} for x in near[:8]]:
+            out.append("conv json " + wire.val(v))
+            out.append("conv var " + wire.val(v))
         for v in [2**64 - 1, 2**63, -2**63, [2**64 - 1, {"a": 2**63}], 1.5, {"é": [None, True]}]:
             out.append("conv json " + wire.val(v))
             out.append("conv var " + wire.val(v))
